@@ -48,3 +48,24 @@ Definition reencode (S : schema) (t : ty) (bs : list N) : option (list N) :=
 
 (* a value whose erasable parts already hold what a reload puts there *)
 Definition at_rest (S : schema) (t : ty) (v : value) : Prop := erase S t v = v.
+
+(* tokens that can be written at all: arguments fit in 64 bits, text payloads are bytes *)
+Definition tok_ok (t : tok) : bool :=
+  match t with
+  | TUInt n | TNInt n | TF64 n => N.ltb n two64
+  | TText s => N.ltb (N.of_nat (length s)) two64 && forallb (fun b => N.ltb b 256) s
+  | TArr n | TMap n => N.ltb (N.of_nat n) two64
+  | TNull | TBool _ => true
+  end.
+
+(* the file of a value, and loading a file: what to_cbor_file / from_cbor_file do, at byte level *)
+Definition save_bytes (S : schema) (t : ty) (v : value) : list N := bytes_of_toks (enc S t v).
+Definition load_bytes (S : schema) (t : ty) (bs : list N) : option value :=
+  match toks_of_bytes (length bs) bs with
+  | None => None
+  | Some ts =>
+      match dec S (Datatypes.S (length ts)) t ts with
+      | Some (v, _) => Some v     (* minicbor::decode does not look at trailing bytes *)
+      | None => None
+      end
+  end.
